@@ -212,6 +212,34 @@ def other_obs(tier, rnd):
     obs.append(Ob("links", build([R("a", 1, 2), R("b", 1, 2), R("c", -1, 2)], body, setup=SETUP, extra_pre=["a != b", "c != 1"]),
                   "link tables with a freed slot in the middle and no explicit slot chunk: fixed point after one cycle", group="links",
                   shape="REF-ENC project Output + 2 modules", symbolic="link entries", timeout=240))
+    # purity of save on objects BUILT through the API (states no loaded file shows, e.g. a freed trailing link slot)
+    body = """
+    p = Project()
+    m_ = __import__("rv.api").api.m
+    a = p.new_module(m_.Amplifier, volume=v)
+    b = p.new_module(m_.Generator)
+    c = p.new_module(m_.Amplifier)
+    a >> c
+    b >> c
+    c >> p.output
+    for i_, mod_ in ((1, a), (2, b)):
+        if drop == i_:
+            c << ~mod_
+    if drop == 3:
+        p.output << ~c
+    pat = Pattern(lines=2, tracks=1)
+    p.attach_pattern(pat)
+    pat.data[1][0].vel = nv
+    raw = lambda: [(list(x.in_links), list(x.in_link_slots), list(x.out_links), list(x.out_link_slots)) for x in p.modules]
+    s0, r0 = snap_project(p), raw()
+    y0 = save_bytes(p)
+    s1, r1 = snap_project(p), raw()
+    y1 = save_bytes(p)
+    return same(s0, s1) and r0 == r1 and y0 == y1 and same(s0, snap_project(p)) and raw() == r0
+"""
+    obs.append(Ob("purity.built", build([R("drop", 0, 3), R("v", 0, 1024), R("nv", 0, 129)], body, setup=SETUP),
+                  "saving a project built through the API (fan-in, one link removed at a symbolic place: first, last = trailing freed slot, the output's, or none) leaves every observable field incl. all four link tables as it was; two saves give identical bytes",
+                  group="links", shape="Project[Output, Amplifier, Generator, Amplifier] with a 2x1 pattern", symbolic="which link is disconnected, a controller value, a velocity", timeout=240))
     return obs
 
 
